@@ -88,6 +88,16 @@ class VList(V):
         return 'VList(%s:%s)' % (self.t, self.ek)
 
 
+class VMap(V):
+    """Reference to a heap dict.  kk: key kind ('str' or 'int'/'ref...'), vk: value kind."""
+
+    def __init__(self, t, kk, vk):
+        self.t, self.kk, self.vk = t, kk, vk
+
+    def __repr__(self):
+        return 'VMap(%s:%s->%s)' % (self.t, self.kk, self.vk)
+
+
 class VOpt(V):
     def __init__(self, isnone, val):
         self.isnone = isnone
@@ -151,6 +161,9 @@ def fresh(kind, base='v'):
         return VRef(z3.Int(fresh_name(base)), None)
     if kind.startswith('list:'):
         return VList(z3.Int(fresh_name(base)), kind[5:])
+    if kind.startswith('map:'):
+        kk, vk = kind[4:].split(':', 1)
+        return VMap(z3.Int(fresh_name(base)), kk, vk)
     if kind.startswith('opt:'):
         return VOpt(z3.Bool(fresh_name(base + '.isnone')), fresh(kind[4:], base))
     if kind == 'any':
@@ -180,6 +193,8 @@ def kind_of(v):
         return 'list'
     if isinstance(v, VOpt):
         return 'opt'
+    if isinstance(v, VMap):
+        return 'map'
     return type(v).__name__
 
 
